@@ -108,6 +108,12 @@ def run_groups(groups, envs, exe, wd, checks, res, extra):
         env = envs[g["gid"]]
         root = env.name(len(env.defs))
         res["n_groups"] += 1
+        if overfill and g["vectors"] and "inp" not in g["vectors"][0]:
+            # C05 also on the default-constructed object (no decode involved)
+            for order in ("L", "B"):
+                cid = "%s.Z.%s" % (g["gid"], order)
+                cases.append((cid, root, "Z", order, ""))
+                meta[cid] = (g, g["vectors"][0], order, b"")
         for vi, vec in enumerate(g["vectors"]):
             res["n_vec"] += 1
             if not vec.get("gta", True) and not ("fault" in vec):
@@ -160,6 +166,19 @@ def _n(res, key):
 def judge(cid, r, env, g, vec, order, data, checks, res):
     is_fault = "inp" in vec
     op_overfill = cid.endswith(".O")
+    if ".Z." in cid:
+        # default-constructed object: only the size equalities apply
+        if "crash" in r:
+            _fail(res, "gbs", env, g, None, "encode of the default-constructed %s failed: %s; %s"
+                  % (env.name(len(env.defs)), r["crash"], _first_report(r["stderr"])), case=cid, order=order)
+        elif "skipped" not in r:
+            _n(res, "gbs_default_object")
+            gbs, ptr, nvec, ebs = int(r["gbs"]), int(r["ptr"]), int(r["vec"]), int(r["ebs"])
+            if not (gbs == ptr == nvec) or (ebs != -1 and gbs != ebs):
+                _fail(res, "gbs", env, g, None, "default-constructed %s: get_byte_size()=%d, encode(void*) wrote %d, "
+                      "encode() returned %d bytes, encoded_byte_size=%d" % (env.name(len(env.defs)), gbs, ptr, nvec, ebs),
+                      case=cid, order=order)
+        return
     kw = dict(case=cid, order=order, inp=data.hex())
     if "skipped" in r:
         res["n_checked"]["skipped_after_crash_cap"] = res["n_checked"].get("skipped_after_crash_cap", 0) + 1
